@@ -29,6 +29,8 @@ def configs(ctx):
                         if fix in ("alpha", "alpha+gamma") and not double:
                             p["nmatch"] = 0
                         p["fix"] = fix
+                        if nta and not front and rng.random() < 0.4:
+                            p["ta_on_ref"] = True
                         p["fix_var"] = float(rng.choice([0.0, 1e-12]))
                         out.append(p)
     return out
@@ -73,7 +75,14 @@ def run_params(ctx, plist):
         ctx.case(("c03", repr(sorted(p.items()))), nontrivial=True, sample=p2)
         ctx.count(key_of(p, "cfg"))
         try:
-            out = case.run()
+            from vlib.props.c07 import capture_run
+            out, rec = capture_run(case)
+            Xd = rec["X"].toarray() * np.sqrt(np.abs(rec["w"]))[:, None]
+            Xd = Xd / np.maximum(np.linalg.norm(Xd, axis=0), 1e-300)
+            free_null = len(f.trans_att) if (f.double and p["fix"] not in ("alpha", "alpha+gamma")) else 0
+            if np.linalg.matrix_rank(Xd, tol=1e-9) < Xd.shape[1] - free_null:
+                ctx.count("skipped-not-identifiable")  # e.g. a single bath temperature between two splices: the premise 'enough information' fails
+                continue
         except Exception as ex:
             ctx.violation(key_of(p, f"raised-{type(ex).__name__}"), f"accepted option combination raised {type(ex).__name__}: {str(ex)[:150]}", p)
             continue
